@@ -41,7 +41,7 @@ def directed(rng: random.Random) -> dict:
                        "if_defines", "if_defines_label", "macro_if_defines", "for_shadow", "for_after", "macro_defined_in_if",
                        "macro_defined_in_empty_loop", "loop_state_per_iteration", "scope_in_loop", "loop_forward_label_shadow",
                        "taken_branch_fails", "table_in_loop", "loop_var_width_boundary", "block_argument_in_loop", "statement_after_if_named_like_a_keyword",
-                       "condition_undefined_then_defined", "empty_first_block"])
+                       "condition_undefined_then_defined", "empty_first_block", "condition_over_parameter_known_later"])
     tables: dict = {}
     db = lambda *es: {"k": "data", "d": "db", "es": [e if isinstance(e, list) else E(e) for e in es]}  # noqa: E731
     if kind == "condition_undefined_then_defined":
@@ -54,6 +54,18 @@ def directed(rng: random.Random) -> dict:
         else:
             body += [{"k": "assign", "n": "tracef", "e": E(rng.choice([1, 3]))}, {"k": "call", "n": "trq", "as": []}, {"k": "block", "b": [{"k": "call", "n": "trq", "as": []}]}]
         return {"prog": body, "files": {}, "tables": tables, "rom": "low", "family": "directed:" + kind}
+    if kind == "condition_over_parameter_known_later":
+        # a conditional over a macro parameter whose argument names a label defined further down: while the body is expanded the name has no
+        # value yet, which counts as false like any undefined name (the hand-expanded program says the same)
+        mdef = {"k": "macro", "n": "optq", "ps": ["pv"], "b": [{"k": "if", "c": E("pv"), "t": [db(0x11)], "e": [db(0x22)] if rng.random() < 0.7 else None}, {"k": "data", "d": "dw", "es": [E("pv")]}]}
+        body += [mdef, {"k": "call", "n": "optq", "as": [E("laterq")]}, {"k": "call", "n": "optq", "as": [E(0)]}, {"k": "call", "n": "optq", "as": [E(3)]},
+                 {"k": "block", "b": [{"k": "call", "n": "optq", "as": [E("laterq", "+", 1)]}]}, {"k": "label", "n": "laterq"}, db(0x60)]
+        body[0] = {"k": "org", "e": E(0x8000)}
+        els = b"\x22" if mdef["b"][0]["e"] else b""
+        total = 4 * 2 + 3 * len(els) + 1
+        later = 0x8000 + total
+        exp = els + later.to_bytes(2, "little") + els + b"\x00\x00" + b"\x11\x03\x00" + els + (later + 1).to_bytes(2, "little") + b"\x60"
+        return {"prog": body, "files": {}, "tables": tables, "rom": "low", "family": "directed:" + kind, "expect_bytes": exp.hex()}
     if kind == "empty_first_block":
         # `.if RELEASE { } else { debug code }` is how "if not" is written: an empty (or comment-only) first block is still the one that is taken
         flag = rng.choice([0, 1, 2])
@@ -257,6 +269,16 @@ def uses_loop_variable_at_expansion(prog: list) -> bool:
 def check_program(res: Res, p: dict) -> None:
     src = source(p["prog"])
     wit = {"p": p, "src": src}
+    if p.get("expect_bytes"):
+        # judged statement by statement (the hand-expanded form is written down with the family)
+        rd, _, _ = run_ir(p)
+        res.case(src, True)
+        res.count("judged_against_the_written_out_form")
+        want = bytes.fromhex(p["expect_bytes"])
+        got = b"".join(bytes(b) for _, b in rd.blocks) if rd.ok else None
+        if got != want:
+            res.violate("differs-from-hand-expansion", f"{p.get('family')}: " + (f"rejected: {rd.err_kind}: {rd.err_text[:160]}" if not rd.ok else f"emitted {got.hex()}") + f", the hand-expanded program gives {want.hex()}", wit)
+        return
     try:
         twin, tstats = expand_control(p["prog"])
     except NoTwin as x:
